@@ -2,14 +2,15 @@ import BarterModel.Driver.Common
 import BarterModel.Model.Unrealised
 /-!
 Line-protocol driver for C15. Ops:
-  `init n`                                          n instruments on one exchange
+  `init n [x]`                                      n instruments on one exchange / (x in 1..5) instrument k on
+                                                    exchange k % x (no C15 clause reads the exchange)
   `fill <id> <instr> <time> <B|S> <price> <qty> <fee>`   account trade through `Engine::process`
-  `trade <instr> <time> <price>`                    public trade market event
+  `trade <instr> <time> <price> [B|S]`              public trade market event (taker side is not read)
   `l1 <instr> <te> <tl> <bidP> <bidA> <askP> <askA>`  top-of-book market event (both sides)
-  `other <instr> <time>`                            market event of a kind that carries no price
+  `other <instr> <time> [candle|liq|book]`          market event of a kind that carries no price
 Observations per instrument `i`: `price<i>`, `pos<i>` (side, entry average, quantity, max quantity,
 entry fees), `upnl<i>`. The spec prints `price<i>` and `upnl<i>` only.
-Rejected (`bad-op`): fills with `qty <= 0`, L1 with `bidA + askA = 0` (Decimal division by zero),
+Rejected (`bad-op`): fills with `qty <= 0` or `price <= 0` (a position with entry average 0 panics on exit), L1 with `bidA + askA = 0` (Decimal division by zero),
 negative amounts. Unknown instrument: `panic` (as `instrument_index_mut` does).
 -/
 namespace BarterModel.Driver.C15
@@ -24,7 +25,7 @@ def parseEv : List String → Option Ev
   | ["fill", id, i, t, sd, p, q, f] =>
     match id.toNat?, i.toNat?, t.toInt?, parseSide sd, parseRat? p, parseRat? q, parseRat? f with
     | some id, some i, some t, some sd, some p, some q, some f =>
-      if q ≤ 0 then none else some (.fill ⟨id, i, t, sd, p, q, f⟩)
+      if q ≤ 0 ∨ p ≤ 0 then none else some (.fill ⟨id, i, t, sd, p, q, f⟩)
     | _, _, _, _, _, _, _ => none
   | ["trade", i, t, p] =>
     match i.toNat?, t.toInt?, parseRat? p with
@@ -36,9 +37,26 @@ def parseEv : List String → Option Ev
       if ba < 0 ∨ aa < 0 ∨ ba + aa = 0 then none
       else some (.market ⟨i, te, .bookL1 ⟨tl, bp, ba, ap, aa⟩⟩)
     | _, _, _, _, _, _, _ => none
+  | ["trade", i, t, p, sd] =>
+    match i.toNat?, t.toInt?, parseRat? p, parseSide sd with
+    | some i, some t, some p, some _ => some (.market ⟨i, t, .trade p⟩)
+    | _, _, _, _ => none
   | ["other", i, t] =>
     match i.toNat?, t.toInt? with
     | some i, some t => some (.market ⟨i, t, .other⟩)
+    | _, _ => none
+  | ["other", i, t, k] =>
+    match i.toNat?, t.toInt? with
+    | some i, some t => if ["candle", "liq", "book"].contains k then some (.market ⟨i, t, .other⟩) else none
+    | _, _ => none
+  | _ => none
+
+/-- `init n` / `init n x` with `1 ≤ x ≤ 5` (the harness has five exchange labels). -/
+def parseInit : List String → Option Nat
+  | ["init", n] => n.toNat?
+  | ["init", n, x] =>
+    match n.toNat?, x.toNat? with
+    | some n, some x => if 1 ≤ x ∧ x ≤ 5 then some n else none
     | _, _ => none
   | _ => none
 
@@ -65,8 +83,8 @@ def model : Drv EngineState where
   init := EngineState.init 0
   step s toks :=
     match toks with
-    | ["init", n] =>
-      match n.toNat? with
+    | "init" :: _ =>
+      match parseInit toks with
       | some n => let s' := EngineState.init n; (s', obs s')
       | none => (s, ["bad-op"])
     | _ =>
@@ -82,8 +100,8 @@ def spec : Drv Spec where
   init := Spec.init 0
   step s toks :=
     match toks with
-    | ["init", n] =>
-      match n.toNat? with
+    | "init" :: _ =>
+      match parseInit toks with
       | some n => let s' := Spec.init n; (s', specObs s')
       | none => (s, ["bad-op"])
     | _ =>
